@@ -269,7 +269,11 @@ theorem C02S_server_registers_on_read (s : St) (h : (tNext s).2 = .pending) :
     unfold SimT.pollNext at hp ⊢
     split
     · simp_all
-    · split
+    · rename_i hf
+      simp only [hf] at hp
+      simp only at hp ⊢
+      generalize s.t.letThrough s.t.faultNext = u at hp ⊢
+      split
       · simp_all
       · simp_all
       · split
@@ -311,6 +315,31 @@ example :
     (getExec c0.s 0).map (·.woken) = some true ∧
     (settle c0).2 = [] ∧ (settle c0).1.s.t.sentLog = [.response 5 (.ok 9)] ∧
     0 < (settleLoopF 400 c0).2 := by
+  decide
+
+/-- the stall script: the transport does not wake its owner when the owner's own flush makes room
+(`selfWake b`), three requests arrive, the request stream is polled once -/
+def limiterSelfWakeOps (b : Bool) : List SOp :=
+  [.selfWake b, .injectReq 1 1000000000 ⟨0, .given 0, false⟩ 0, .injectReq 2 1000000000 ⟨0, .given 0, false⟩ 0,
+   .injectReq 3 1000000000 ⟨0, .given 0, false⟩ 0, .pollServer]
+
+/-- **`MaxRequests` relies on the sink waking it (model-level witness; reported, not repaired).**  With a
+request limit (`limit = some 0`: every request is refused with the throttle error), a sink of capacity 2 and a
+transport that does *not* wake its owner when the owner's own flush restores readiness (`selfWake false` —
+a staging sink): the poll refuses requests 1 and 2 (two replies fill the sink), then
+`MaxRequests::poll_next` gets `poll_ready → Pending` and returns `Pending` *without flushing*; the write pump
+then flushes (making the sink ready again) and finds nothing to write.  The poll returns `Pending` with the
+stream task parked although request 3 is unread and the transport is ready — only the write waker it left
+registered at the sink could wake it, and this sink never fires it for the owner's own flush: `settle`
+reports the unread inbound item as stuck.  With a self-waking transport (`selfWake true`) the same poll
+leaves the task woken and `settle` reads request 3. -/
+theorem C02S_limiter_needs_self_wake_witness :
+    let c := (limiterSelfWakeOps false).foldl applyOp (initSys (some 0) 1 2 true)
+    let c' := (limiterSelfWakeOps true).foldl applyOp (initSys (some 0) 1 2 true)
+    (c.s.woken = false ∧ c.s.t.inbound.length = 1 ∧ c.s.t.isReadyNow = true ∧ c.s.t.writeWaker = true ∧
+      c.s.done = none ∧ c.s.dropped = false ∧ c.s.poisoned = false ∧ c.s.t.wire.length = 2 ∧
+      (settle c).2 = ["inbound-unread=1"]) ∧
+    (c'.s.woken = true ∧ (settle c').2 = [] ∧ (settle c').1.s.t.inbound = []) := by
   decide
 
 end TarpcModel.Server
